@@ -173,6 +173,7 @@ pub fn run_gen(args: &Args, mut out: Out) {
         }
         out.ev(sid, "Reset", json!({}));
         let mut canon: Option<(usize, u64)> = None;
+        let mut canon_res = String::new();
         // an event stream can be serialised only once
         let schedules: Vec<WMode> = if known {
             vec![WMode::All, WMode::AtMost(1), WMode::AtMostWithPending(7), WMode::Cycle(vec![4096, 1, 100, 65536, 3])]
@@ -192,6 +193,7 @@ pub fn run_gen(args: &Args, mut out: Out) {
             let bytes_out = &w.got;
             if si == 0 {
                 canon = Some((bytes_out.len(), digest(bytes_out)));
+                canon_res = res_s.to_string();
                 let (head, rest, found) = split_head(bytes_out);
                 let walk = if known || !normal { walk_plain(rest) } else { walk_chunked(rest) };
                 out.ev(
@@ -205,7 +207,7 @@ pub fn run_gen(args: &Args, mut out: Out) {
                     sid,
                     "Again",
                     json!({"mode": format!("{mode:?}"), "res": res_s, "total": bytes_out.len(), "digest": digest(bytes_out),
-                           "canonTotal": canon.unwrap().0, "canonDigest": canon.unwrap().1}),
+                           "canonTotal": canon.unwrap().0, "canonDigest": canon.unwrap().1, "canonRes": canon_res}),
                 );
             }
         }
@@ -268,7 +270,7 @@ pub fn run_chunk_lens(args: &Args, mut out: Out) {
             let res = catch(|| poll_budget(copy_chunked_async(&mut src, &mut w), 100));
             let ok = matches!(res, Ok(Some(CopyResult::Ok(_))));
             let walk = walk_chunked(&w.got);
-            v.push((n, json!({"n": n, "ok": ok, "pieces": src.delivered, "srcLen": src.dg.1, "srcDigest": src.dg.value(), "walk": walk, "fault": "none", "res": if ok { "Ok" } else { "Fail" }})));
+            v.push((n, json!({"n": n, "ok": ok, "pieces": src.delivered, "srcLen": src.dg.1, "srcDigest": src.dg.value(), "srcPrefixDigest": src.dg.value(), "walk": walk, "fault": "none", "res": if ok { "Ok" } else { "Fail" }})));
         }
         v
     });
@@ -329,11 +331,16 @@ pub fn run_chunk_gen(args: &Args, mut out: Out) {
         }
         out.ev(sid, "Reset", json!({}));
         let fault_name = ["none", "source", "writer-boundary", "writer-mid"][fault];
+        let walk = walk_chunked(&w.got);
+        // the digest of the first `walk.len` source bytes (the source is the byte pattern i % 251): what a prefix
+        // of the right data must hash to
+        let decoded_len = walk["len"].as_u64().unwrap_or(0);
+        let prefix: Vec<u8> = (0..decoded_len.min(src.dg.1)).map(|i| (i % 251) as u8).collect();
         out.ev(
             sid,
             "Chunks",
             json!({"n": total, "ok": res_s == "Ok", "pieces": src.delivered, "srcLen": src.dg.1, "srcDigest": src.dg.value(),
-                   "walk": walk_chunked(&w.got), "fault": fault_name, "res": res_s}),
+                   "srcPrefixDigest": digest(&prefix), "walk": walk, "fault": fault_name, "res": res_s}),
         );
     }
     out.finish();
